@@ -10,8 +10,9 @@
   N-WHO      operations on the registered_names map (HashMap<WellKnownName, NameStatus>) are exactly the confirmed
              (function, method) table: request (get, insert), its two monitor tasks (remove / get_mut), release
              (remove), the object-server dispatcher (read only), Connection::new (construction)
-  N-GUARD    the registered_names MutexGuard is among the locals saved across the `RequestName` await and is the
-             receiver of the final insert; likewise saved across the `ReleaseName` await in release_name (R-AWAIT)
+  N-GUARD    the registered_names MutexGuard is among the locals saved across the `RequestName` await, is not moved
+             out / dropped on any path before that await (the witness alone still lists a guard given to `drop()`),
+             and is the receiver of the final insert; likewise for the `ReleaseName` await in release_name (R-AWAIT)
   N-SIGNAL   each monitor task's stream comes from the match rule of the right signal (the task that removes listens
              to NameLost, the task that promotes listens to NameAcquired), and its state change happens only on the
              Some(Ok(_)) edge of the awaited stream item
@@ -20,6 +21,9 @@
   N-SENDER   the monitor tasks' state changes are reached only through the "equal" edge of a comparison of the
              signal's Header::sender() with "org.freedesktop.DBus" (or MatchRule::matches checks well-known senders).
              EXPECTED TO FAIL on the unchanged tree (DESIGN §7 K-C36): one instance per monitor task.
+
+The reply table is read from a `match` (switch on the discriminant of RequestNameReply / NameStatus); an `==` chain
+instead of a match is not recognised and fails closed. Sender checks: see C32.
 
 Not decided: the bus's behaviour, reply/serial matching in call_method, the content of the match rules beyond the
 member name, task scheduling. Sender comparisons hidden in helper functions are not recognised (reported, fail closed).
@@ -77,6 +81,18 @@ def ns_aggs(body, blocks=None):
     return out
 
 
+def check_not_released(ctx, body, a, held, what):
+    """the coroutine witness still lists a guard that was moved into drop() before the await (it is computed before
+    drop elaboration): additionally require that no path moves / drops the guard before the await starts"""
+    c0 = af.into_future_call(body, a)
+    for ty, name, ln in held:
+        for g in af.locals_named(body, name, "MutexGuard"):
+            rel = c0 is None or af.released_before(body, g, c0.b)
+            ctx.ob("N-GUARD", "guard-not-released-before-" + what, not rel,
+                   "`%s` is neither moved nor dropped on any path before the %s await" % (name, what) if not rel else
+                   "`%s` is moved out / dropped (e.g. drop(%s)) on a path before the %s await" % (name, name, what), a.where)
+
+
 def check_codes(ctx, f):
     for adt, table in SPEC.items():
         a = f.adts.get(adt)
@@ -107,6 +123,7 @@ def check_request(ctx, f):
                "no registered_names MutexGuard is live across the RequestName await (saved: %s)" % [n for t, n, l in a.saved],
                a.where)
         names = {n for t, n, l in held}
+        check_not_released(ctx, req, a, held, "RequestName")
         after = [c for c in inserts if af.after_await(req, a, c.b)]
         ctx.floor("N-GUARD", "inserts after the RequestName reply", len(after), 1)
         for c in after:
@@ -288,6 +305,7 @@ def check_release(ctx, f):
         ctx.ob("N-GUARD", "guard-live-across-ReleaseName", bool(held),
                "registered_names guard saved across the ReleaseName await" if held else
                "no registered_names MutexGuard is live across the ReleaseName await", a.where)
+        check_not_released(ctx, rel, a, held, "ReleaseName")
     removes = [c for c in map_calls(rel) if method(c) == "remove"]
     ctx.floor("N-RELEASE", "registered_names.remove in release_name", len(removes), 1)
     for r in removes:
